@@ -14,6 +14,7 @@ Spec == Init /\ [][Next]_x
 Tids == {0, 1, 6, 10, 11, -1, 2147483647, -2147483647 - 1}
 Msgs == {"", "m"}
 Base == {[uid |-> 100 + i, kind |-> "plain", tid |-> 0, msg |-> "", text |-> m, cause |-> NoErr] : i \in {1}, m \in {"", "boom"}}
+        \cup {[uid |-> 150, kind |-> "uncmp", tid |-> 0, msg |-> "", text |-> "list of errors", cause |-> NoErr]}
         \cup {[uid |-> 200, kind |-> "foreign", tid |-> t, msg |-> "", text |-> "f", cause |-> NoErr] : t \in Tids}
         \cup {[uid |-> 300, kind |-> k, tid |-> t, msg |-> m, text |-> "", cause |-> NoErr] : k \in {"application", "transport", "protocol"}, t \in Tids, m \in Msgs}
 Wrapped1 == {[Wrap(e) EXCEPT !.uid = 400] : e \in Base}
@@ -28,15 +29,15 @@ PrependPreserves ==
     /\ ErrorText(r) = p \o ErrorText(e)                                            \* text = prefix + original text
     /\ (IsExc(e) => (r.kind = e.kind /\ r.tid = e.tid))                             \* kind and type id preserved
     /\ (e.kind = "foreign" => (r.kind = "application" /\ r.tid = e.tid))
-    /\ (e.kind \in {"plain", "fmtwrap"} => r.kind = "plain")
+    /\ (e.kind \in {"plain", "fmtwrap", "uncmp"} => r.kind = "plain")
 WrapKeepsCause ==
   \A e \in All :
     LET w == [Wrap(e) EXCEPT !.uid = IF e.kind = "protocol" THEN e.uid ELSE 999] IN
-    /\ ErrorsIs(w, e)                                   \* the cause stays reachable
+    /\ ErrorsIs(w, e) = Comparable(e)                   \* the cause stays reachable (by identity, where the type has one)
     /\ (e.kind = "protocol" => w = e)                   \* identity on protocol exceptions
     /\ (e.kind # "protocol" => (Unwrap(w) = e /\ w.tid = 0 /\ w.msg = ErrorText(e)))
     \* a protocol exception buried in a wrapper is NOT returned as such: the wrapper is the cause, and its chain stays reachable
-    /\ (e.kind = "fmtwrap" => (w.kind = "protocol" /\ w # e.cause /\ ErrorsIs(w, e.cause)))
+    /\ (e.kind = "fmtwrap" => (w.kind = "protocol" /\ w # e.cause /\ (ErrorsIs(w, e.cause) = Comparable(e.cause))))
 IsRule ==
   \A a \in All, b \in All :
     a.kind = "protocol" =>
@@ -44,6 +45,8 @@ IsRule ==
                            \/ (HasTypeId(b) /\ b.tid = a.tid /\ ErrorText(b) = a.msg)
                            \/ (IsErr(a.cause) /\ ErrorsIs(a.cause, b))))
 NonProtocolIsIdentity == \A a \in All, b \in All : a.kind \notin {"protocol", "fmtwrap"} => (ErrorsIs(a, b) <=> Same(a, b))
+\* a value of an uncomparable type is never identified, not even with itself; it is still rendered, prefixed and wrapped
+UncmpNeverSame == \A a \in All, b \in All : (a.kind = "uncmp" \/ b.kind = "uncmp") => ~Same(a, b)
 FmtWrapIsChain == \A a \in All, b \in All : a.kind = "fmtwrap" => (ErrorsIs(a, b) <=> (Same(a, b) \/ ErrorsIs(a.cause, b)))
-Inv == PrependPreserves /\ WrapKeepsCause /\ IsRule /\ NonProtocolIsIdentity /\ FmtWrapIsChain /\ Cardinality(All) > 200
+Inv == PrependPreserves /\ WrapKeepsCause /\ IsRule /\ NonProtocolIsIdentity /\ FmtWrapIsChain /\ UncmpNeverSame /\ Cardinality(All) > 200
 =============================================================================
